@@ -5,7 +5,7 @@ import ast
 from typing import Dict, List, Optional, Set
 
 from .. import wire, paths
-from ..model import norm_text, AnchorMissing, FuncInfo
+from ..model import norm_text, AnchorMissing, FuncInfo, Project
 from ..controls import Control
 from ..mutate import in_func
 
@@ -24,7 +24,7 @@ def _is_conf_key(e: ast.expr, f: FuncInfo) -> bool:
     return norm_text(e).replace('"', "'") == KEY
 
 
-def flip_unit(ctx, p, key: str, data_param: Optional[str], units: Optional[Dict[str, int]] = None) -> Optional[int]:
+def flip_unit(ctx, p, key: str, data_param: Optional[str], units: Optional[Dict[str, int]] = None, bind: Optional[Dict[str, ast.expr]] = None, quiet: bool = False) -> Optional[int]:
     """A function that flips its data exactly once (np.flipud) under the DS9 config key and not at all otherwise.
     Returns 1 if so, 0 if the function contains no flip at all, None (and a finding) otherwise."""
     rule = "C16.flip-unit"
@@ -37,7 +37,12 @@ def flip_unit(ctx, p, key: str, data_param: Optional[str], units: Optional[Dict[
         return via if via is not None else 0
     # decided on the name-free path summaries (sa/paths.py; new helpers such as a `_flip_for_ds9()` predicate are looked into): on every returning path the value carries
     # exactly one np.flipud when the DS9 key holds and none when it does not, and the two values differ in nothing else
-    PS = paths.path_summaries(f, project=p)
+    # (optional arguments whose default is None are left out - the documented contract; a call that passes one is counted for that value by count_flips)
+    env0 = dict(bind or {})
+    for q_, d_ in f.defaults.items():
+        if q_ not in env0 and isinstance(d_, ast.Constant) and d_.value is None:
+            env0[q_] = ast.Constant(value=None)
+    PS = paths.path_summaries(f, project=p, env0=env0)
     rets = paths.returns(PS) if PS is not None else []
 
     def n_flips(v):
@@ -74,6 +79,31 @@ def flip_unit(ctx, p, key: str, data_param: Optional[str], units: Optional[Dict[
     return 1 if ok else None
 
 
+def unit_under(p, f: FuncInfo, bind: Dict[str, ast.expr]) -> Optional[int]:
+    """flips applied by flip unit f when it is called with the given literal values for its optional arguments (`flip_for_ds9=False`): 0 when no returning path flips,
+    1 when the paths flip exactly under the DS9 key, None otherwise"""
+    env0 = dict(bind)
+    for q_, d_ in f.defaults.items():
+        if q_ not in env0 and isinstance(d_, ast.Constant) and d_.value is None:
+            env0[q_] = ast.Constant(value=None)
+    PS = paths.path_summaries(f, project=p, env0=env0)
+    rets = paths.returns(PS) if PS is not None else []
+    if not rets:
+        return None
+    res = set()
+    for q in rets:
+        good = [c for c in ast.walk(q.value) if isinstance(c, ast.Call) and norm_text(c.func) in ("np.flipud", "numpy.flipud")]
+        bad = [c for c in ast.walk(q.value) if (isinstance(c, ast.Call) and norm_text(c.func) in ("np.flip", "numpy.flip", "np.fliplr", "numpy.fliplr")) or (isinstance(c, ast.Subscript) and "::-1" in norm_text(c.slice))]
+        if bad or len(good) > 1:
+            return None
+        res.add((len(good), q.holds(KEY)))
+    if all(g == 0 for g, _ in res):
+        return 0
+    if all((g == 1 and fl is True) or (g == 0 and fl is False) for g, fl in res):
+        return 1
+    return None
+
+
 def count_flips(p, f: FuncInfo, units: Dict[str, int], depth: int = 0) -> Optional[int]:
     """number of flip units applied by f (through resolved callees; class-level wrappers such as Array2D.from_fits are followed)"""
     if depth > 4:
@@ -87,7 +117,15 @@ def count_flips(p, f: FuncInfo, units: Dict[str, int], depth: int = 0) -> Option
         hit = False
         for t in tg:
             if t.key in units:
-                total += units[t.key]
+                # a call that sets an optional argument of the unit to a literal is counted for that value
+                lit = {q_: v_ for q_, v_ in Project.bind(c, t)[0].items() if isinstance(v_, ast.Constant) and isinstance(t.defaults.get(q_), ast.Constant) and t.defaults[q_].value is None}
+                if lit:
+                    u_ = unit_under(p, t, lit)
+                    if u_ is None:
+                        return None
+                    total += u_
+                else:
+                    total += units[t.key]
                 hit = True
                 break
         if hit:
